@@ -35,7 +35,7 @@ def run(tier):
     os.remove(r1["out_path"])
     states, trans = r1["distinct"], r1["states"]
     evals, samples = rep1["evaluations"], rep1["samples"][:2]
-    modes = [("vcs", "{0}"), ("index", "{0}")] if tier == "quick" else [("vcs", "{0}"), ("index", "{0}"), ("names", "{0, 1, 2}")]
+    modes = [("vcs", "{0}"), ("index", "{0}"), ("order", "{0}")] if tier == "quick" else [("vcs", "{0}"), ("index", "{0}"), ("order", "{0}"), ("names", "{0, 1, 2}")]
     for mode, ch in modes:
         r = core.tlc("MC_Zerv", zerv_cfg(mode, ch), "c12-" + mode, workers=12, timeout=7200)
         obs = os.path.join(core.BUILD, "c12-out-%s.ndjson" % mode)
